@@ -94,12 +94,27 @@ def apply_observers(object, graphs, handler, *, dispatcher, remove=False):
         If True, remove notifiers. i.e. unobserve the traits. The default
         is False.
     """
-    for graph in graphs:
-        add_or_remove_notifiers(
-            object=object,
-            graph=graph,
-            handler=handler,
-            target=object,
-            dispatcher=dispatcher,
-            remove=remove,
-        )
+    completed = []
+    try:
+        for graph in graphs:
+            add_or_remove_notifiers(
+                object=object,
+                graph=graph,
+                handler=handler,
+                target=object,
+                dispatcher=dispatcher,
+                remove=remove,
+            )
+            completed.append(graph)
+    except Exception:
+        # Revert the graphs already applied, then reraise.
+        while completed:
+            add_or_remove_notifiers(
+                object=object,
+                graph=completed.pop(),
+                handler=handler,
+                target=object,
+                dispatcher=dispatcher,
+                remove=not remove,
+            )
+        raise
